@@ -23,7 +23,7 @@ SPEC = {
             '(1..3 commit reports per chain, 1..3 messages each, 0..2 token slots, costly ids, sender nonces) where every '
             'item is reported by thr-1, thr, thr+1, all or a random number of oracles; then 1, 2, thr-1 or thr colluding '
             'Byzantine oracles apply one of 25 shapes (repeated - adjacent and interleaved - / split / overlapping / re-executed commit reports, one commit report filed '
-            'under several chain keys or under a key other than its own SourceChain (alone and on top of thr-1 honest reporters), a message '
+            'under several chain keys or under a key other than its own SourceChain (alone and on top of thr-1 honest reporters: refused by validateCommitReportKeys since the repair of F75), a message '
             'under extra sequence-number keys or under another chain key, variant messages, messages of a chain the oracle '
             'may not read, costly ids repeated adjacently and with other ids in between ([A,A], [A,B,A], [A,B,B,A], spread over several ids), '
             'foreign costly ids, variant and re-chained nonces, variant / missing / extra / re-keyed token slots, token data / nonces / costly '
@@ -40,28 +40,30 @@ SPEC = {
             'destination one cycle late) / lag+byz1; per round the deviating observation is the honest one rewritten by one of 9 / 12 / 7 shapes (dropped, other executed list, '
             'reports filed or copied under another chain key, forged report, repeated report, other timestamp, commit data already carrying messages / token data / costly ids, a '
             'committed report the honest readers do not see - with and without its messages -, variant / re-keyed / dropped messages, extra / variant / shifted token slots, '
-            'every id flagged costly twice, nonces + 1 / under another chain / for an unknown sender). Every observation goes through JSON and Plugin.ValidateObservation, '
+            'every id flagged costly twice, nonces + 1 / under another chain / for an unknown sender); class lag+echo: the faulty oracle seconds the lagging reader in the GetCommitReports '
+            'round, so that both versions of a report reach f+1 (F76: ambiguous reports are dropped, the others must not be blocked); with 7 oracles f(source) and f(dest) are drawn '
+            'independently from {1,2} and 2 or 3 oracles collude (F75: commit reports go by the destination\'s f). Every observation goes through JSON and Plugin.ValidateObservation, '
             'Plugin.Outcome runs on every oracle (all must agree); a failed round is repeated on the same previous outcome. Judged: model = implementation for every '
             'round (verdicts and decoded outcome, ids of items = first 8 bytes of the implementation\'s sha3 id so that GetValid order is reproduced), the end-to-end '
             'clauses (a)-(c) on the implementation\'s outputs, and - when at most f oracles deviate - the liveness ground truth (every eligible pending message of the '
             'world is in the cycle\'s report; class 2 = F13e masks this clause only) and nothing the destination shows as executed is in any report of the cycle. In a tenth of the '
             'cycles (class readerr) the destination reader fails, on every oracle, for all but the last executed-range query of a chain: no report may then hold an executed message '
             '(catches seeded C09-6 through the copy of this part in C09). The harness seed is hashed (neighbouring splitmix seeds give shifted copies of one stream). '
-            'Probes, not part of the check: VERIF_XS_PROBE=poison / poison1 replay C09_cycle_liveness_poisoned_refuted on the real plugins. non-trivial = the Filter round\'s report holds a message',
+            'Probes, not part of the check: VERIF_XS_PROBE=poison / poison1 (F75) and split (F76) replay C09_cycle_liveness_poisoned_unfixed_refuted / C09_conflicting_versions_unfixed_refuted on the real plugins (stall on the unpatched tree, normal cycles on the repaired one). non-trivial = the Filter round\'s report holds a message',
     'trusted': ['item identity = the implementation\'s id function (sha3 of "%v"; TokenDataHash): the harness interns the same '
                 'rendering, the other item fields are functions of it',
                 'HomeChain.GetSupportedChainsForPeer answers are an oracle (scripted fake); fChain is an input (the plugin reads it from its local home-chain view)',
                 'libocr delivers at most one observation per oracle and only observations that passed ValidateObservation'],
     'assumptions': ['observations are decodable JSON (decode errors are C13)'],
     'level_text': 'Proof: Coq theorems over the executable model of ValidateObservation and the five merges: every merged commit '
-                  'report / message / ready token slot / nonce / costly id has at least f+1 distinct reporting oracles of the identical '
+                  'report (f of the DESTINATION, key = its source chain: repairs of F75) / message / ready token slot / nonce / costly id has at least f+1 distinct reporting oracles of the identical '
                   'item and no validated observation votes twice for one item, for all fChain maps and all validated observation lists '
                   'with distinct oracles; items with that support are always present and the merge never fails on validated observations '
                   '(C07_non_blocking at full strength after the F13d repair), except that a token slot index without support makes a '
                   'message\'s token data not ready (recorded F13e); refutation theorems for the code before the F13a/F13c/F13d repairs. Correspondence: ValidateObservation + getConsensusObservation against the model on generated DONs every run. '
                   'System level (Model/ExecSys.v = Plugin.Outcome composed from the C07 / C08 models and the state machine, Proofs/ExecSysP.v): C07_used_needs_quorum_cycle - for every '
                   'cycle GetCommitReports -> GetMessages -> Filter of validated observation lists: a message in the Filter round\'s execute report has (i) its commit report (full item) '
-                  'reported by f_j+1 distinct oracles in round 1, j = the chain key it was FILED under (what the code does: not f_dest, not tied to the report\'s source chain), carried '
+                  'reported by f_dest+1 distinct oracles in round 1 under the key of its own source chain (repairs of F75; before them: f of the filing key, key not tied to the report - C07_commit_unfixed_refuted, C09_cycle_liveness_poisoned_unfixed_refuted), carried '
                   'unchanged through round 2, (ii) itself reported by f_k+1 under its source chain key in round 2, (iii) ready token data whose slots have f_k+1 reporters '
                   '(C07_token_data_cycle: of its own sequence number, by counting, when the agreed commit data carried no token data - the builder compares list lengths only), '
                   'fewer than f_dest+1 costly flags (C07_not_costly_cycle), (iv) a sequenced message\'s on-chain nonce reported by f_dest+1 in round 3; C07_cycle_nonvacuous. '
@@ -69,9 +71,9 @@ SPEC = {
     'level_note': 'Trusted: Coq kernel, hand-written model, differential harness, interning of the %v identity. No axioms. '
                   'Two valid items with one map key (same sequence number / same sender) are stored by Go map order (F17, property C10): '
                   'the check accepts any possible assignment.',
-    'modelled': 'validateObserverReadingEligibility, validateObserverDataEligibility, validateObservedSequenceNumbers, validateMessageKeys, validateObservedChains, merge{Commit,Message,Token,Nonce}Observations, '
+    'modelled': 'validateObserverReadingEligibility, validateObserverDataEligibility, validateObservedSequenceNumbers, validateMessageKeys, validateObservedChains, validateCommitReportKeys, merge{Commit,Message,Token,Nonce}Observations (commit reports at the destination threshold), '
                 'mergeCostlyMessages, getConsensusObservation; JSON codec and home-chain lookups are inputs. System level (Model/ExecSys.v): Plugin.Outcome (state decoding, '
-                'getConsensusObservation, PluginState.Next, getCommitReportsOutcome, getMessagesOutcome + observedSeqNumsInRange, getFilterOutcome -> selectReport + report builder, '
+                'getConsensusObservation, PluginState.Next, getCommitReportsOutcome + dropConflictingReports (repair of F76), getMessagesOutcome + observedSeqNumsInRange, getFilterOutcome -> selectReport + report builder, '
                 'NewOutcome sorting, the empty-outcome rule), GetValid\'s ascending-id order, a history of rounds as a fold (a failed round commits nothing); not modelled: contract discovery, '
                 'Plugin.Observation (observations are inputs), the nil outcome of a plugin whose contracts are not initialised',
 }
